@@ -205,6 +205,8 @@ const (
 	ErrUnknownModifier Error = "unknown modifier"
 	// ErrIncludeTooDeep is the too many nested $include error.
 	ErrIncludeTooDeep Error = "$include nested too deeply"
+	// ErrTooManyIncludes is the too many $include directives error.
+	ErrTooManyIncludes Error = "too many $include directives"
 )
 
 // Error satisfies the error interface.
